@@ -110,7 +110,9 @@ def strsToJson (l : List Str) : Json := Json.arr (l.map jstr).toArray
 
 def trToJson (t : Tr) : Json :=
   Json.mkObj [("lang", jstr t.lang), ("default", Json.bool t.isDefault), ("ids", strsToJson t.ids),
-    ("forms", Json.arr (t.texts.map fun tf => Json.arr (tf.2.map fun o => match o with
+    ("forms", Json.arr (t.texts.map fun tf => Json.arr (tf.2.map fun o => match o.1 with
+      | some f => jstr f | none => Json.null).toArray).toArray),
+    ("values", Json.arr (t.texts.map fun tf => Json.arr (tf.2.map fun o => match o.2 with
       | some f => jstr f | none => Json.null).toArray).toArray)]
 
 def trOfJson (j : Json) : Except String Tr := do
